@@ -1,6 +1,24 @@
 // harness/h_capi.cpp -- C20: the C interface (src/soplex_interface.{h,cpp}) does exactly what the wrapped C++ calls do.
 // Every SoPlex_* function is driven on a handle H and the corresponding C++ call on a mirror object M, call by call,
-// over random valid histories.  See h_capi_ops.inc for the per-function contracts that were derived from the header.
+// over random valid histories (<= 40 calls).  After every call all C++ accessors of *(SoPlex*)H and of M are compared
+// (diffSoPlex: reals bitwise, rationals exactly); every value handed back through the C interface is compared with the
+// wrapped C++ getter on M; arrays are heap blocks of exactly the contract length (ASan red zone) or canary-padded.
+//
+// Contracts used (from the header comments, the wrapped C++ calls and tests/c_interface/main.c):
+//  * addRow/ColReal|Rational(entries, size, nnonzeros, ...): `size` dense entries are read (indices 0..size-1; indices beyond
+//    the current dimension create columns/rows, as the C test does on an empty LP); nnonzeros is a capacity hint >= the
+//    number of non-zeros; denominators are read only for non-zero numerators but are always valid (non-zero).
+//  * change{Obj,Lhs,Rhs,Range,Bounds,Lower,Upper}Real / change{Obj,Lhs,Rhs}Rational(vec, dim): dim = numCols / numRows exactly
+//    (the wrapped C++ calls require a vector of that dimension).
+//  * getPrimalReal/getDualReal/getRedCostReal(arr, dim): dim = length of arr, >= numCols/numRows (C++: getXxxReal(R*, dim));
+//    shorter dim: the C++ call refuses and nothing may be written.
+//  * getLowerReal/getUpperReal/getObjReal(arr, dim): dim = numCols (the wrapped getXxxReal(VectorBase&) asserts exactly
+//    that dimension on a scaled LP); oracle = that vector getter.
+//  * getRowVectorReal/Rational(i, &nnz, indices, coefs...): arrays of >= numCols elements; the first *nnz carry the row.
+//  * getPrimalRationalString(dim): dim = numCols (C test); the string is the str() of each entry followed by one blank.
+//  * returned char*: NUL-terminated inside its allocation, equal to the C++ value, to be released with free() (header).
+// Only valid calls: lower <= upper, lhs <= rhs (also for the exact images in auto sync mode), indices in range, rational
+// functions only with a rational LP (sync mode auto), parameter codes/values inside the C++ ranges.
 #include "sxinc.hpp"
 #include "base.hpp"
 extern "C" {
